@@ -726,6 +726,83 @@ func runC11(c *Ctx) {
 	c11panics(c)
 	c11doublePanics(c)
 	c11withoutMarkers(c)
+	c11withHook(c)
 	c.res.Bound = "rune edges: all 2048 surrogates + 18 boundary values; all 256 bytes; 5 buffer states x 4 implementations; 44 JoinTo operand types x 4 delimiters; every prefix of 46 hostile formats x 11 operand lists x 6 routes; 44 nil-ish and reflection-hostile operands x 58 verbs x 4 flag forms x 6 routes"
 	c.res.Assumptions = []string{"outside the claim, per the statement: Grow with a negative count, memory exhaustion; nil destinations/callbacks are programmer errors, not values to print", "a panic raised while printing a panic payload propagates, as in fmt (checked against fmt in C04)"}
+}
+
+// c11withHook: the containment of user-method panics does not depend on whether an error hook is registered. With a
+// hook that renders an error through its Error method (as cockroachdb/errors does), an Error method that panics — on its
+// own or because the receiver is a nil pointer — must be reported in place like any other method panic.
+func c11withHook(c *Ctx) {
+	c.Serial(func(w *Worker) {
+		hooks := []func(err error, p redact.SafePrinter, verb rune){
+			func(err error, p redact.SafePrinter, _ rune) { p.Printf("H[%s]", err.Error()) },
+			func(err error, p redact.SafePrinter, _ rune) { p.SafeString("H:"); p.Print(err.Error()) },
+			func(err error, p redact.SafePrinter, _ rune) { p.UnsafeString(err.Error()) },
+			func(err error, p redact.SafePrinter, _ rune) { panic("hook itself: boom") },
+		}
+		type ecase struct {
+			name   string
+			e      error
+			nilish bool
+		}
+		cases := []ecase{{"Error panics with a string", tPanicErr{panicSpec{mode: 0, msg: "boom"}}, false}, {"Error panics with an error", tPanicErr{panicSpec{mode: 1, msg: "boom"}}, false},
+			{"Error panics with a runtime error", tPanicErr{panicSpec{mode: 3, msg: "boom"}}, false}, {"nil *T whose Error dereferences", (*tPErr)(nil), true}, {"well-behaved", tErr{"fine"}, false}}
+		shapes := []func(e error) interface{}{
+			func(e error) interface{} { return e },
+			func(e error) interface{} { return []interface{}{1, e, "z"} },
+			func(e error) interface{} { return []error{e} },
+			func(e error) interface{} { return struct{ E error }{e} },
+			func(e error) interface{} { return map[string]error{"k": e} },
+			func(e error) interface{} { return redact.Safe(e) },
+		}
+		defer redact.RegisterRedactErrorFn(nil)
+		for hi, h := range hooks {
+			redact.RegisterRedactErrorFn(h)
+			for _, ec := range cases {
+				for si, sh := range shapes {
+					for _, f := range []string{"pre %v post", "pre %+v post", "pre %s post", "pre %d|%v post", "pre %q post", "pre %#v post"} {
+						args := []interface{}{sh(ec.e)}
+						if strings.Count(f, "%") == 2 {
+							args = []interface{}{7, sh(ec.e)}
+						}
+						cs := func() interface{} {
+							return map[string]interface{}{"hook": hi, "error": ec.name, "shape": si, "format": f}
+						}
+						var out, sbOut string
+						ok := guard(w, "hook-panic-escaped", "Sprintf("+q(f)+") with hook "+itoa(hi)+", operand "+ec.name+" (shape "+itoa(si)+")", cs, func() { out = string(redact.Sprintf(f, args...)) })
+						ok = guard(w, "hook-panic-escaped", "StringBuilder.Printf("+q(f)+") with hook "+itoa(hi)+", operand "+ec.name+" (shape "+itoa(si)+")", cs, func() {
+							var sb redact.StringBuilder
+							sb.Printf(f, args...)
+							sbOut = string(sb.RedactableString())
+						}) && ok
+						w.Eval(2)
+						w.Nontrivial(hashStrs("c11hook", itoa(hi), ec.name, itoa(si), f))
+						if !ok {
+							continue
+						}
+						if !checkOut(w, out, "Sprintf with a hook", cs) {
+							continue
+						}
+						if out != sbOut {
+							w.Violate("C11 hook-routes", "with hook "+itoa(hi)+", operand "+ec.name+": Sprintf="+q(out)+" StringBuilder.Printf="+q(sbOut), cs())
+						}
+						if !strings.HasPrefix(out, "pre ") || !strings.HasSuffix(out, " post") {
+							w.Violate("C11 hook-text-lost", "with hook "+itoa(hi)+", operand "+ec.name+": the literal text around the operand is not intact: "+q(out), cs())
+						}
+						// a nil pointer receiver turns any panic under it into <nil>, as in fmt
+						panics := !ec.nilish && (ec.name != "well-behaved" || hi == 3)
+						if panics && si == 0 && !strings.Contains(out, "PANIC=") {
+							w.Violate("C11 hook-report", "with hook "+itoa(hi)+", operand "+ec.name+": no PANIC report in "+q(out), cs())
+						}
+						// (under Safe(e) everything the operand prints is declared safe, the payload included: C06)
+						if panics && si != 5 && strings.Contains(redact.RedactableString(out).Redact().StripMarkers(), "boom") {
+							w.Violate("C11 hook-payload", "with hook "+itoa(hi)+", operand "+ec.name+": the panic payload is visible after Redact(): "+q(out), cs())
+						}
+					}
+				}
+			}
+		}
+	})
 }
